@@ -321,11 +321,11 @@ def size_no_overlap(n):
 CU_DOMS = ((0, 2), (0, 3), (1, 3))
 
 
-def space_cumulative(idx, n, fixed_dom=None, durs=(1, 2, 3)):
+def space_cumulative(idx, n, fixed_dom=None, durs=(1, 2, 3), dems=(1, 2)):
     """index = (((dom*3^n + dur)*2^n + dem)*3 + cap)"""
     cap = 1 + idx % 3
     k = idx // 3
-    dem = [1 + x for x in digits(k % 2**n, 2, n)]
+    dem = [dems[x] for x in digits(k % 2**n, 2, n)]
     k //= 2**n
     dur = [durs[x] for x in digits(k % 3**n, 3, n)]
     k //= 3**n
